@@ -310,6 +310,7 @@ int main(int argc, char **argv) {
   std::string replay;
   double deadline = 1e18;
   long maxstates = 20000000;
+  int merge_check = 0;  // self-check of the state abstraction: number of merge events whose futures are compared
   int fault_bound = 0;
   Opts o;
   for (int a = 1; a < argc; ++a) {
@@ -328,6 +329,7 @@ int main(int argc, char **argv) {
     else if (s == "--no-ctors") o.ctors = false;
     else if (s == "--hint-only") o.hint_only = true;
     else if (s == "--fault") fault_bound = std::atoi(nxt().c_str());
+    else if (s == "--merge-check") merge_check = std::atoi(nxt().c_str());
     else if (s == "--crumb") {
       std::string p = nxt();
       int fd = open(p.c_str(), O_RDWR | O_CREAT | O_TRUNC, 0644);
@@ -401,6 +403,21 @@ int main(int argc, char **argv) {
     std::reverse(h.begin(), h.end());
     return h;
   };
+
+  // multiset of successor keys of the state reached by history H (for the merge self-check)
+  auto succ_keys = [&](const std::vector<Op> &H) {
+    std::vector<std::string> ks;
+    std::vector<Op> en;
+    run_once(H, nullptr, K, &en, o);
+    std::vector<Op> ops2 = en;
+    for (const Op &op : ops2) {
+      RunResult rr = run_once(H, &op, K, nullptr, o);
+      ks.push_back(rr.nfail ? std::string("FAIL") : rr.key_after);
+    }
+    std::sort(ks.begin(), ks.end());
+    return ks;
+  };
+  long merges_checked = 0;
   {
     std::vector<Op> none;
     RunResult r0 = run_once(none, nullptr, K, nullptr, o);
@@ -454,6 +471,21 @@ int main(int argc, char **argv) {
           viols.push_back(VRec{vf::L().fails[0].tags, vf::L().fails[0].msg, hist_str(h), op_str(op), keys[cur]});
         if (failure_is_fatal()) continue;
       }
+      {
+        auto itm = seen.find(r.key_after);
+        if (itm != seen.end() && merges_checked < merge_check && itm->second != (int)cur && !r.nfail) {
+          std::vector<Op> h2 = h;
+          h2.push_back(op);
+          std::vector<Op> h1 = history(itm->second);
+          if (hist_str(h1) != hist_str(h2)) {
+            ++merges_checked;
+            if (succ_keys(h1) != succ_keys(h2)) {
+              nondet = "state abstraction unsound: histories [" + hist_str(h1) + "] and [" + hist_str(h2) + "] share key " + r.key_after + " but have different successor keys";
+              break;
+            }
+          }
+        }
+      }
       if (seen.find(r.key_after) == seen.end()) {
         seen.emplace(r.key_after, (int)states.size());
         states.push_back(State{(int)cur, op, states[cur].depth + 1, states[cur].faults});
@@ -500,7 +532,7 @@ int main(int argc, char **argv) {
   std::printf("{\"instantiation\":%s,\n", inst_json().c_str());
   std::printf("\"K\":%d,\"L\":%d,\"reloc\":%d,\"states\":%zu,\"transitions\":%ld,\"max_depth\":%d,\"distinct_outcomes\":%zu,\"complete\":%s,\"violating_transitions\":%ld,\"fault_bound\":%d,\"fault_transitions\":%ld,\"max_fault_points_per_op\":%ld,\n",
               K, KEYS, g_reloc, states.size(), transitions, maxdepth, digests.size(), complete ? "true" : "false", viol_total, fault_bound, fault_transitions, max_events);
-  std::printf("\"claims_reloc\":%s,\"static_fail\":\"%s\",\"nondeterminism\":\"%s\",\n", claims ? "true" : "false", jesc(static_fail).c_str(), jesc(nondet).c_str());
+  std::printf("\"merges_checked\":%ld,\"claims_reloc\":%s,\"static_fail\":\"%s\",\"nondeterminism\":\"%s\",\n", merges_checked, claims ? "true" : "false", jesc(static_fail).c_str(), jesc(nondet).c_str());
   std::printf("\"per_kind\":{");
   bool first = true;
   for (auto &kv : per_kind) {
